@@ -921,7 +921,8 @@ def run(spec, R):
                     process(R, T, data[:k], drivers[k % len(drivers)], 'prefix', repro)
                     R.count('prefixes_tried')
             # charset games
-            for cs in ('latin-1', 'utf-16', 'ascii', 'no-such-charset'):
+            for cs in ('latin-1', 'utf-16', 'ascii', 'no-such-charset', 'utf\x008', 'utf-8\x00', '\x00', '"utf\x008"', '', ' ', '"utf-8', 'utf-8"', "'utf-8'", '\xe9', 'utf-8' * 200,
+                       'hex', 'rot13', 'undefined', 'idna', 'unicode_escape', 'utf-8;x', 'UTF-8', '"UTF-8"'):
                 process(R, T, data, 'wsgi', 'charset:' + cs, dict(repro, charset=cs))
             try:
                 process(R, T, data.decode('utf8').encode('utf-16'), drivers[0], 'encoding:utf-16-body', repro)
